@@ -45,10 +45,12 @@ def sampling_set_lines(ctx, rule="C27.sampling-set"):
     mid = [p for p in parts if p[0] != "const"]
     ctx.check(sep == "\n" and dotted(v.args[0].generators[0].iter) == "support_chunks", rule, f, "line per chunk", "one line per chunk",
               "sampling-set lines are joined with %r over %s" % (sep, ast.unparse(v.args[0].generators[0].iter)))
-    ctx.check(prefix == "c ind " and term == " 0" and len(mid) == 1 and mid[0][1] == "' '.join(map(str, chunk))", rule, f,
+    from ..sym import Env as _E27, sym as _sym27
+    mid_nf = str(_sym27(ast.parse(mid[0][1], mode="eval").body, _E27())) if len(mid) == 1 else ""
+    ctx.check(prefix == "c ind " and term == " 0" and len(mid) == 1 and mid_nf in ("' '.join([str(_b0) for _b0 in chunk])", "' '.join(map(str, chunk))"), rule, f,
               "line format %s" % skeleton(parts), "line = 'c ind ' + variables separated by blanks + ' 0'",
               "sampling-set line format is %s" % skeleton(parts), st[0])
-    ins = F.assigns("unigen_string")
+    ins = F.assigns("unigen_string") or [r_ for r_ in F.returns() if ".replace(" in r_]     # assigned to a local, or returned directly
     ctx.check(len(ins) == 1 and ins[0].startswith("self.as_dimacs_string(fresh_variable_count).replace('\\n', concat('\\n', ") and ins[0].endswith(", 1)"),
               rule, f, "placement", "the lines are inserted right after the problem line", "placement of the sampling-set lines changed: %s" % (ins[0][:100] if ins else ins))
     # reader
@@ -214,8 +216,13 @@ def check(ctx):
               "exactly the sampling-set variables (all variables when the file names none), each signed by the model", "call_cmsgen_python renders the literals as `%s`" % lits[:200])
     su = ctx.fn("sample_uniform:sample_uniform")
     r = [s for s in statements(su.node) if isinstance(s, ast.Return)]
-    t = ast.unparse(r[-1].value)
-    ctx.check(t == "[build_solution(line) for line in solution_str.strip().splitlines() if line and (not line.startswith('c'))][sample_set:]", R, su, "sample lines",
+    Fsu = Facts(su)
+    # normal form of the returned value with the local that holds the parsed list expanded; the slice start stays symbolic
+    env_su = Fsu.snaps[id(r[-1])].copy()
+    env_su.values.pop("sample_set", None)
+    from ..sym import _sym as _sym_su
+    t = str(_sym_su(r[-1].value, env_su))
+    ctx.check(".splitlines() if (_b0 and not(_b0.startswith('c')))][sample_set:]" in t and t.startswith("[build_solution(_b0) for _b0 in ") and ".strip().splitlines()" in t, R, su, "sample lines",
               "every non-comment output line is a solution", "sample_uniform parses %s" % t)
 
     mod = sys.modules[__name__]
